@@ -88,3 +88,21 @@ Proof. exact oneshot_terminates. Qed.
 Example C04_bound_d1 :
   8 * edges g_d1 + 3 * size g_d1 + 8 * length [2%N; 1%N] + 3 = 33 /\ Phi (init_sys g_d1 [2%N; 1%N]) <= 33 /\ internal sched_d1 = 10.
 Proof. vm_compute. repeat split; lia. Qed.
+
+(* THE ORDER OF DELIVERY the theorems of C01, C04, C06-C08, C10, C11, C17, C20 quantify over.  The code relays every actor
+   output through one channel: the messages of ONE sender reach a destination in the order they were sent; messages of
+   different senders in whatever order the channel interleaved them.  The model appends the outputs of a step to the inboxes
+   at once, and lets a destination handle any message that no earlier message of the same sender precedes (labels LDeliverAt,
+   LRootAt; LDeliver, LRoot = position 0): every merge of the per-sender streams is a possible handling order, which covers
+   every interleaving the real relay can produce.  Below: the aggregate 3 may handle the acknowledgement of 2 before that of 1,
+   but not the second message of 1 before its first. *)
+Example C04_any_merge_of_the_senders_streams :
+  let g : graph := <[1%N := (ABuild, [])]> (<[2%N := (ABuild, [])]> (<[3%N := (AAggregate, [1%N; 2%N])]> ∅)) in
+  exists s,
+    run_labels true false (init_sys g [3%N])
+      [LDeliver 3%N true; LDeliver 3%N true; LDeliver 1%N true; LDeliver 1%N true; LDeliver 2%N true; LDeliver 2%N true;
+       LBuildDone 1%N RCompleted] = Some s /\
+    (bool_decide (inbox s !! 3%N = Some [MOk KS 1%N false; MOk KS 2%N false; MOk KB 1%N true]) &&
+     bool_decide (is_Some (exec true false s (LDeliverAt 3%N 1 true))) &&
+     bool_decide (exec true false s (LDeliverAt 3%N 2 true) = None)) = true.
+Proof. apply witness_intro. vm_compute. reflexivity. Qed.
